@@ -234,6 +234,7 @@ fn cmd_replay_edges(args: &[String]) -> i32 {
     let mut mismatches: Vec<Value> = vec![];
     let mut nmis = 0u64;
     let mut panics = 0u64;
+    let mut drift_lines: Vec<String> = vec![];
     for line in f.lines() {
         let line = line.unwrap();
         if line.trim().is_empty() {
@@ -290,6 +291,8 @@ fn cmd_replay_edges(args: &[String]) -> i32 {
         }
         if !ok {
             nmis += 1;
+            // every drifting history goes to <out>.drift.ndjson (the monitors judge them, DESIGN 3.3)
+            drift_lines.push(serde_json::to_string(&json!({"h": h})).unwrap());
             if mismatches.len() < 50 {
                 mismatches.push(json!({"h": h, "expected": x, "observed": obs}));
             }
@@ -297,6 +300,11 @@ fn cmd_replay_edges(args: &[String]) -> i32 {
     }
     let res = json!({"edges": total, "mismatches": nmis, "panics": panics, "samples": mismatches});
     std::fs::write(&args[2], serde_json::to_string(&res).unwrap()).unwrap();
+    let mut dl = drift_lines.join("\n");
+    if !dl.is_empty() {
+        dl.push('\n');
+    }
+    std::fs::write(format!("{}.drift.ndjson", &args[2]), dl).unwrap();
     0
 }
 
